@@ -273,6 +273,7 @@ struct Driver {
     res = "skip:dead";               \
     goto done;                       \
   }
+#define FITS(n) ((n) >= 0 && static_cast<unsigned long long>(n) <= static_cast<unsigned long long>(std::numeric_limits<typename V::size_type>::max()))
 #define NEED(cond)        \
   if (!(cond)) {          \
     skipped = true;       \
@@ -287,6 +288,7 @@ struct Driver {
         alive[a] = true;
       } else if (op == "ctor_n") {
         long n = I(2);
+        NEED(FITS(n));
         destroySlot(a);
         strongOp = true;
         arm();
@@ -295,6 +297,7 @@ struct Driver {
         ref[a].assign(n, 0);
       } else if (op == "ctor_nv") {
         long n = I(2);
+        NEED(FITS(n));
         destroySlot(a);
         mkTmp(static_cast<int>(I(3)));
         strongOp = true;
@@ -431,7 +434,7 @@ struct Driver {
         NEED_ALIVE(a);
         long p = I(2), n = I(3);
         Arg g = parseArg(S(4));
-        NEED(p >= 0 && p <= sz && n >= 0 && (!g.own || g.idx < sz));
+        NEED(p >= 0 && p <= sz && FITS(n) && (!g.own || g.idx < sz));
         int val = g.own ? r[g.idx] : g.val;
         if (!g.own) mkTmp(val);
         strongOp = (p == sz);  // insertion at the end
@@ -522,7 +525,7 @@ struct Driver {
       } else if (op == "resize") {
         NEED_ALIVE(a);
         long n = I(2);
-        NEED(n >= 0);
+        NEED(FITS(n));
         strongOp = n > sz;
         insertPoint = std::min(n, sz);
         arm();
@@ -532,7 +535,7 @@ struct Driver {
         NEED_ALIVE(a);
         long n = I(2);
         Arg g = parseArg(S(3));
-        NEED(n >= 0 && (!g.own || g.idx < sz));
+        NEED(FITS(n) && (!g.own || g.idx < sz));
         int val = g.own ? r[g.idx] : g.val;
         if (!g.own) mkTmp(val);
         strongOp = n > sz;
@@ -545,7 +548,7 @@ struct Driver {
         NEED_ALIVE(a);
         long n = I(2);
         Arg g = parseArg(S(3));
-        NEED(n >= 0 && (!g.own || g.idx < sz));
+        NEED(FITS(n) && (!g.own || g.idx < sz));
         int val = g.own ? r[g.idx] : g.val;
         if (!g.own) mkTmp(val);
         const T &refArg = g.own ? v(a).begin()[g.idx] : *tmp;
@@ -588,7 +591,7 @@ struct Driver {
       } else if (op == "append_n") {
         NEED_ALIVE(a);
         long n = I(2);
-        NEED(n >= 0);
+        NEED(FITS(n));
         strongOp = true;
         insertPoint = sz;
         arm();
@@ -598,7 +601,7 @@ struct Driver {
         NEED_ALIVE(a);
         long n = I(2);
         Arg g = parseArg(S(3));
-        NEED(n >= 0 && (!g.own || g.idx < sz));
+        NEED(FITS(n) && (!g.own || g.idx < sz));
         int val = g.own ? r[g.idx] : g.val;
         if (!g.own) mkTmp(val);
         strongOp = true;
@@ -731,6 +734,7 @@ struct Driver {
     }
   done:
 #undef NEED
+#undef FITS
 #undef NEED_ALIVE
     G().countdown = -1;
     Ev ev1 = evNow();
